@@ -829,4 +829,48 @@ SEEDS = [
          new="""            self.node_mut(index).entity.key = entity.key;
             self.node_mut(index).entity.val = self.node(nd_right).entity.val.clone();
 """, note='two-children removal takes the key from the successor and the value from the right child'),
+
+    # --- BYPASS: answers given in front of the search (round 6) -------------------------------------------------
+    dict(id='BP1-maplist-pred-fast-path-equal', props=['C13'], file='src/map/list.rs',
+         old="""    fn first_index_less(&self, key: K) -> u32 {
+        match self.buffer.binary_search_by(|e| e.key.cmp(&key)) {""",
+         new="""    fn first_index_less(&self, key: K) -> u32 {
+        match self.buffer.first() {
+            Some(first) if first.key < key => {}
+            _ => return EMPTY_REF,
+        }
+        match self.buffer.binary_search_by(|e| e.key.cmp(&key)) {""", note='early-out also taken when the probe equals the first key'),
+    dict(id='BP2-maptree-pred-fast-path-equal', props=['C08'], file='src/map/tree.rs',
+         old="""    fn search_first_less(&self, key: K) -> u32 {
+        let mut index = self.root;
+        let mut result = EMPTY_REF;
+""",
+         new="""    fn search_first_less(&self, key: K) -> u32 {
+        let mut index = self.root;
+        let mut result = EMPTY_REF;
+        if index != EMPTY_REF {
+            let root = self.node(index);
+            if root.left == EMPTY_REF && key <= root.entity.key {
+                return EMPTY_REF;
+            }
+        }
+""", note='fast path before the descent answers "none" for a probe equal to the root key'),
+    dict(id='BP3-keytree-get-value-time-shortcut', props=['C06'], file='src/key/tree.rs',
+         old="""    fn search_value(&mut self, time: E, key: K) -> Option<V> {
+""",
+         new="""    fn search_value(&mut self, time: E, key: K) -> Option<V> {
+        if key.expiration() <= time {
+            return None;
+        }
+""", note='lookup answers from the probe alone (a probe with an earlier expiration than the stored equal key)'),
+    dict(id='BP4-setlist-get-value-last-shortcut', props=['C13'], file='src/set/list.rs',
+         old="""    fn get_value(&self, key: &K) -> Option<&V> {
+""",
+         new="""    fn get_value(&self, key: &K) -> Option<&V> {
+        if let Some(last) = self.buffer.last() {
+            if last.key() <= key {
+                return None;
+            }
+        }
+""", note='early-out "probe above the last key" also taken when equal'),
 ]
